@@ -32,8 +32,22 @@ def num(it):
     return a
 
 
+class S(str):
+    """a trivial str subclass (string values may be any str, e.g. coba's Categorical)"""
+    def __repr__(self):
+        return "S(%s)" % str.__repr__(self)
+
+
 def build_item(it):
-    return it["s"] if "s" in it else num(it)
+    if "s" in it:
+        sc = it.get("sc")
+        if sc == "cat":
+            from coba.primitives import Categorical
+            return Categorical(it["s"], [it["s"], it["s"] + "~"])
+        if sc == "sub":
+            return S(it["s"])
+        return it["s"]
+    return num(it)
 
 
 def build_key(k):
@@ -71,6 +85,82 @@ def build_val(v):
     raise ValueError(k)
 
 
+def build_val_obj(v, pool):
+    """like build_val, but a value carrying "obj": k re-uses the list/dict OBJECT of slot k, changed in place"""
+    slot = v.get("obj")
+    plain = (v["k"] == "dense" and v.get("wrap", "list") == "list") or (v["k"] == "sparse" and v.get("wrap", "dict") == "dict")
+    if slot is None or not plain:
+        return build_val(v)
+    new = build_val(v)
+    old = pool.get(slot)
+    if old is not None and type(old) is type(new):
+        if isinstance(old, list):
+            old[:] = new
+        else:
+            old.clear()
+            old.update(new)
+        return old
+    pool[slot] = new
+    return new
+
+
+class capped_memory:
+    """a broken encoder may multiply strings by large numbers: while the real code runs, cap the address space of the
+    worker so that this is a MemoryError (reported like any exception) and not an OOM kill; restored afterwards so
+    that a driver respawned later is not affected"""
+    CAP = 1024 ** 3
+
+    def __enter__(self):
+        self.old = None
+        try:
+            import resource
+            soft, hard = resource.getrlimit(resource.RLIMIT_AS)
+            if (soft == resource.RLIM_INFINITY or soft > self.CAP) and (hard == resource.RLIM_INFINITY or hard >= self.CAP):
+                resource.setrlimit(resource.RLIMIT_AS, (self.CAP, hard))
+                self.old = (soft, hard)
+        except Exception:
+            self.old = None
+        return self
+
+    def __exit__(self, *a):
+        if self.old is not None:
+            try:
+                import resource
+                resource.setrlimit(resource.RLIMIT_AS, self.old)
+            except Exception:
+                pass
+        return False
+
+
+def calls_of(case):
+    return [case["ns"]] + list(case.get("hist", []))
+
+
+def single(case, i):
+    """call #i of the history as a case of its own"""
+    return {"terms": case["terms"], "ns": [[n, {k: x for k, x in v.items() if k != "obj"}] for n, v in calls_of(case)[i]]}
+
+
+def run_history(case):
+    """the real code: ONE encoder object, the calls of the history in order (argument objects re-used where the
+    case says so); a call that raises does not end the history"""
+    from coba.encodings import InteractionsEncoder
+    calls = calls_of(case)
+    try:
+        enc = InteractionsEncoder(build_terms(case))
+    except Exception as e:
+        return [{"err": type(e).__name__, "msg": str(e)[:200]} for _ in calls]
+    pool, outs = {}, []
+    with capped_memory():
+        for ns in calls:
+            try:
+                kw = {n: build_val_obj(v, pool) for n, v in ns}
+                outs.append(canon_out(enc.encode(**kw)))
+            except Exception as e:
+                outs.append({"err": type(e).__name__, "msg": str(e)[:200]})
+    return outs
+
+
 def build_terms(case):
     return [t if isinstance(t, str) else num(t) for t in case["terms"]]
 
@@ -103,11 +193,12 @@ def run_impl(case):
     from coba.encodings import InteractionsEncoder
     terms = build_terms(case)
     try:
-        kw = {n: build_val(v) for n, v in case["ns"]}
-        enc = InteractionsEncoder(terms)
-        r1 = canon_out(enc.encode(**kw))
-        r2 = canon_out(enc.encode(**{n: build_val(v) for n, v in case["ns"]}))
-        r3 = canon_out(InteractionsEncoder(list(terms)).encode(**{n: build_val(v) for n, v in case["ns"]}))
+        with capped_memory():
+            kw = {n: build_val(v) for n, v in case["ns"]}
+            enc = InteractionsEncoder(terms)
+            r1 = canon_out(enc.encode(**kw))
+            r2 = canon_out(enc.encode(**{n: build_val(v) for n, v in case["ns"]}))
+            r3 = canon_out(InteractionsEncoder(list(terms)).encode(**{n: build_val(v) for n, v in case["ns"]}))
     except Exception as e:
         return {"err": type(e).__name__, "msg": str(e)[:200]}
     if r1 != r2 or r1 != r3:
@@ -461,7 +552,10 @@ class C20(Property):
             "letter order, 0-3 numeric constants (repeated ones included), namespaces as dense vectors of distinct primes (every monomial "
             "has a unique value), small ints with zeros/negatives/duplicates, dyadic floats, sparse dicts with str/int keys and "
             "number/string values, scalars, strings, None, [], absent, lazy/hashable wrappers; sizes biased to the (n,d) boundary "
-            "(3,4),(4,3); non-trivial = at least one term and at least 3 expected entries; distinct by canonical JSON of the case")
+            "(3,4),(4,3); string values also as str subclasses (coba.primitives.Categorical, a trivial subclass); 45% of the cases are "
+            "histories of 2-4 encode() calls on ONE encoder object (same container types with different contents incl. sequences "
+            "gaining/losing strings, the SAME list/dict object re-passed after an in-place change, alternating dense/sparse/string "
+            "calls, identical repeats), every call judged on its own; non-trivial = at least one term and at least 3 expected entries; distinct by canonical JSON of the case")
     trusted_base = [
         "products are compared exactly (ints, or dyadic floats small enough that every float product is exact)",
         "Python dict/OrderedDict insertion semantics are modelled by an association list (dictSet/dictOf)",
@@ -581,6 +675,89 @@ class C20(Property):
         return {"terms": terms, "ns": ns}
 
     def generate(self, rng, tier, focus=False):
+        case = self.gen_call(rng, tier, focus)
+        self.subclass_strings(rng, case["ns"])
+        if rng.chance(0.45 if not focus else 0.6):
+            self.add_history(rng, case, tier)
+        return case
+
+    def subclass_strings(self, rng, ns):
+        """string values may be str subclasses (coba.primitives.Categorical, a trivial subclass)"""
+        if not rng.chance(0.35):
+            return
+        for _, v in ns:
+            its = [v["v"]] if v["k"] == "scalar" else v["v"] if v["k"] == "dense" else [it for _, it in v["v"]] if v["k"] == "sparse" else []
+            for it in its:
+                if "s" in it and rng.chance(0.6):
+                    it["sc"] = rng.choice(["cat", "sub"])
+
+    def vary(self, rng, v, state):
+        """same container type, different contents; sequences may gain or lose their strings"""
+        v = json.loads(json.dumps(v))
+        v.pop("obj", None)
+        if v["k"] == "dense":
+            items = v["v"]
+            has_str = any("s" in it for it in items)
+            r = rng.below(100)
+            if has_str and r < 45:
+                items = [it if "n" in it else self.gen_numbers(rng, "primes", 1, state)[0] for it in items]
+            elif not has_str and items and r < 35:
+                items[rng.below(len(items))] = {"s": rng.choice(["a", "b", "red", ""])}
+            else:
+                items = [it if ("s" in it or rng.chance(0.3)) else self.gen_numbers(rng, "primes", 1, state)[0] for it in items]
+                if items and rng.chance(0.25):
+                    items = items[:-1]
+                elif len(items) < 5 and rng.chance(0.3):
+                    items.append(self.gen_numbers(rng, "primes", 1, state)[0])
+            v["v"] = items
+        elif v["k"] == "sparse":
+            kvs = [[k, it if ("s" in it and rng.chance(0.6)) else (self.gen_numbers(rng, "primes", 1, state)[0] if rng.chance(0.8) else {"s": "z"})] for k, it in v["v"]]
+            if kvs and rng.chance(0.25):
+                kvs = kvs[1:]
+            v["v"] = kvs
+        elif v["k"] == "scalar":
+            v["v"] = {"s": rng.choice(["abc", "d", "q"])} if "s" in v["v"] else self.gen_numbers(rng, "primes", 1, state)[0]
+        return v
+
+    def add_history(self, rng, case, tier):
+        """further encode() calls on the same encoder object"""
+        state = {"p": 9}
+        n = W(rng, [(1, 6), (2, 3), (3, 1)])
+        mode = W(rng, [("vary", 40), ("same-object", 30), ("alternate", 20), ("repeat", 10)])
+        hist, prev = [], case["ns"]
+        if mode == "same-object":
+            k = 0
+            for _, v in prev:
+                if (v["k"] == "dense" and v.get("wrap", "list") == "list") or (v["k"] == "sparse" and v.get("wrap", "dict") == "dict"):
+                    v["obj"] = k
+                    k += 1
+                elif v["k"] == "dense" and rng.chance(0.7):
+                    v["wrap"], v["obj"] = "list", k
+                    k += 1
+        for _ in range(n):
+            if mode == "alternate" or (mode != "repeat" and rng.chance(0.15)):
+                other = self.gen_call(rng, tier, False)
+                ns = [[c, v] for c, v in other["ns"]]
+                self.subclass_strings(rng, ns)
+            elif mode == "repeat":
+                ns = json.loads(json.dumps(prev))
+            else:
+                ns = []
+                for c, v in prev:
+                    v2 = self.vary(rng, v, state)
+                    if mode == "same-object" and "obj" in v:
+                        v2["obj"] = v["obj"]
+                    ns.append([c, v2])
+                if rng.chance(0.1) and len(ns) > 1:
+                    ns = ns[:-1]
+            hist.append(ns)
+            prev = ns
+        case["hist"] = hist
+        for i, ns in enumerate(hist):
+            t = self.trim({"terms": case["terms"], "ns": ns})
+            hist[i] = t["ns"]
+
+    def gen_call(self, rng, tier, focus=False):
         if not focus and rng.chance(0.03):
             return self.gen_collision(rng)
         letters = ["x", "a"]
@@ -685,6 +862,7 @@ class C20(Property):
     def corpus(self):
         P = lambda *ps: {"k": "dense", "v": [{"n": [p, 1]} for p in ps], "wrap": "list"}
         one = {"n": [1, 1]}
+        D = lambda *its: {"k": "dense", "v": list(its), "wrap": "list"}
         cs = [
             self.single(3, 4, "dense"), self.single(4, 3, "dense"), self.single(3, 3, "dense"), self.single(2, 6, "dense"),
             self.single(5, 5, "dense"), self.single(3, 4, "sparse"), self.single(4, 3, "strings"), self.single(1, 5, "dense"),
@@ -713,12 +891,57 @@ class C20(Property):
             {"terms": [{"n": [2, 1]}], "ns": []},
             {"terms": ["xxxa", "aaa"], "ns": [["a", P(2, 3, 5, 7)], ["x", P(11, 13, 17)]]},
             {"terms": ["xxxxaaa"], "ns": [["x", P(2, 3, 5)], ["a", P(7, 11, 13, 17)]]},
+            # histories on one encoder object (minimised seeded mutants m2-m4 of round c20b)
+            {"terms": ["x", "xx"], "ns": [["x", D({"s": "a"}, {"n": [3, 1]})]], "hist": [[["x", P(2, 3)]], [["x", D({"n": [5, 1]}, {"s": "b"})]]]},
+            {"terms": ["x", "xx"], "ns": [["x", P(2, 3)]], "hist": [[["x", D({"s": "a"}, {"n": [3, 1]})]], [["x", P(5, 7)]]]},
+            {"terms": ["xa"], "ns": [], "hist": [[["x", D({"s": ""})]]]},
+            {"terms": ["xx", "xa"], "ns": [["x", dict(P(2, 3), obj=0)], ["a", dict(P(5), obj=1)]],
+             "hist": [[["x", dict(P(7, 11), obj=0)], ["a", dict(P(5), obj=1)]], [["x", dict(P(7, 11, 13), obj=0)], ["a", dict(P(17, 19), obj=1)]]]},
+            {"terms": ["xx"], "ns": [["x", {"k": "sparse", "obj": 0, "wrap": "dict", "v": [[{"s": "p"}, {"n": [2, 1]}], [{"s": "q"}, {"n": [3, 1]}]]}]],
+             "hist": [[["x", {"k": "sparse", "obj": 0, "wrap": "dict", "v": [[{"s": "p"}, {"n": [5, 1]}], [{"s": "r"}, {"s": "v"}]]}]]]},
+            {"terms": ["x"], "ns": [["x", {"k": "scalar", "v": {"s": "d", "sc": "cat"}}]]},
+            {"terms": ["xx", "xa"], "ns": [["x", D({"s": "red", "sc": "cat"}, {"n": [3, 1]})], ["a", D({"n": [5, 1]}, {"s": "s", "sc": "sub"})]]},
+            {"terms": ["xa"], "ns": [["x", {"k": "sparse", "wrap": "dict", "v": [[{"i": 1}, {"s": "red", "sc": "cat"}], [{"s": "k"}, {"n": [3, 1]}]]}], ["a", {"k": "scalar", "v": {"s": "t", "sc": "sub"}}]]},
         ]
         return cs
 
     # ---- evaluation
     def evaluate(self, case, driver):
-        impl = run_impl(case)
+        """a case is a history of 1-4 encode() calls on ONE encoder object; encode is a function of (terms,
+        arguments) only, so every call is judged on its own, (A)(B)(C), exactly like a single call"""
+        calls = calls_of(case)
+        if len(calls) == 1:
+            return self.evaluate_call(single(case, 0), run_impl(single(case, 0)), driver)
+        impls = run_history(case)
+        out = {"fails": [], "tags": ["hist:%d" % len(calls)], "nontrivial": False, "impl": [], "model": []}
+        slots = [v.get("obj") for ns in calls for _, v in ns if v.get("obj") is not None]
+        if len(set(slots)) < len(slots):
+            out["tags"].append("hist:same-object-changed-in-place")
+        kinds = set()
+        for i in range(len(calls)):
+            one = single(case, i)
+            r = self.evaluate_call(one, impls[i], driver)
+            kinds.add("sparse" if Oracle(one).sparse else "dense")
+            for f in r["fails"]:
+                f = dict(f)
+                if f["kind"] in ("A", "B") and i > 0:
+                    # does the same call on a fresh encoder with fresh argument objects behave?
+                    alone = self.evaluate_call(one, run_impl(one), driver)
+                    if not any(g["kind"] == f["kind"] for g in alone["fails"]):
+                        f["sig"] = "stateful:" + f["sig"]
+                        f["what"] = ("encode() depends on earlier calls on the same encoder object (a fresh encoder with fresh "
+                                     "arguments gives the right result). ") + f["what"]
+                f["what"] = "call #%d of %d on one encoder: %s" % (i + 1, len(calls), f["what"])
+                out["fails"].append(f)
+            out["tags"] += r["tags"] if i == 0 else [t for t in r["tags"] if t.startswith(("B:", "A:", "result:", "val:"))]
+            out["nontrivial"] = out["nontrivial"] or r["nontrivial"]
+            out["impl"].append(r["impl"])
+            out["model"].append(r["model"])
+        if len(kinds) > 1:
+            out["tags"].append("hist:dense-and-sparse-calls")
+        return out
+
+    def evaluate_call(self, case, impl, driver):
         fails, tags, o = monitor(case, impl)
         # tags
         tags.append("call:" + ("sparse" if o.sparse else "dense"))
@@ -753,6 +976,8 @@ class C20(Property):
         tags.append("maxdeg:%d" % min(maxd, 6))
         if any(it.get("f") for it in all_items(case)):
             tags.append("values:float")
+        for sc in sorted(set(it["sc"] for it in all_items(case) if it.get("sc"))):
+            tags.append("values:str-subclass:" + sc)
         if o.sparse and not o.collided and "sparse" in impl:
             ents = o.entries(dedupe(o.terms))
             if len(set(k for k, _ in ents)) < len(ents):
@@ -805,46 +1030,78 @@ class C20(Property):
 
     # ---- shrinking
     def shrink(self, case):
-        terms, ns = case["terms"], case["ns"]
+        # coarse candidates come first; the number per round is capped (every candidate is a full evaluation)
+        return itertools.islice(self.shrink_all(case), 160)
+
+    def shrink_all(self, case):
+        calls = calls_of(case)
+        mk = lambda terms, cs: dict({"terms": terms, "ns": cs[0]}, **({"hist": cs[1:]} if len(cs) > 1 else {}))
+        if len(calls) > 1:
+            for i in range(len(calls) - 1, -1, -1):
+                yield mk(case["terms"], calls[:i] + calls[i + 1:])
+            if any("obj" in v for ns in calls for _, v in ns):
+                yield mk(case["terms"], [[[n, {k: x for k, x in v.items() if k != "obj"}] for n, v in ns] for ns in calls])
+        for ci, ns in enumerate(calls):
+            for terms2, ns2 in self.shrink_call(case["terms"], ns):
+                if terms2 is not case["terms"] and ci > 0:
+                    continue
+                yield mk(terms2, calls[:ci] + [ns2] + calls[ci + 1:])
+            for i, (n, v) in enumerate(ns):
+                for j, it in enumerate([v["v"]] if v["k"] == "scalar" else v["v"] if v["k"] == "dense" else [e[1] for e in v["v"]] if v["k"] == "sparse" else []):
+                    if "sc" in it and it["sc"] != "sub":
+                        v2 = json.loads(json.dumps(v))
+                        tgt = v2["v"] if v["k"] == "scalar" else v2["v"][j] if v["k"] == "dense" else v2["v"][j][1]
+                        tgt["sc"] = "sub"
+                        yield mk(case["terms"], calls[:ci] + [ns[:i] + [[n, v2]] + ns[i + 1:]] + calls[ci + 1:])
+
+    def shrink_call(self, terms, ns):
+        """smaller (terms, ns) pairs for one call"""
         for i in range(len(terms)):
-            yield {"terms": terms[:i] + terms[i + 1:], "ns": ns}
+            yield (terms[:i] + terms[i + 1:], ns)
         for i in range(len(ns)):
-            yield {"terms": terms, "ns": ns[:i] + ns[i + 1:]}
+            yield (terms, ns[:i] + ns[i + 1:])
         for i, t in enumerate(terms):
             if isinstance(t, str) and len(t) > 1:
                 for j in range(len(t)):
-                    yield {"terms": terms[:i] + [t[:j] + t[j + 1:]] + terms[i + 1:], "ns": ns}
+                    yield (terms[:i] + [t[:j] + t[j + 1:]] + terms[i + 1:], ns)
         for i, (n, v) in enumerate(ns):
             if v["k"] in ("dense", "sparse"):
                 for j in range(len(v["v"]) - 1, -1, -1):
-                    yield {"terms": terms, "ns": ns[:i] + [[n, dict(v, v=v["v"][:j] + v["v"][j + 1:])]] + ns[i + 1:]}
+                    yield (terms, ns[:i] + [[n, dict(v, v=v["v"][:j] + v["v"][j + 1:])]] + ns[i + 1:])
                 if v.get("wrap") not in (None, "list", "dict"):
-                    yield {"terms": terms, "ns": ns[:i] + [[n, dict(v, wrap="list" if v["k"] == "dense" else "dict")]] + ns[i + 1:]}
+                    yield (terms, ns[:i] + [[n, dict(v, wrap="list" if v["k"] == "dense" else "dict")]] + ns[i + 1:])
                 if v["k"] == "sparse" and not any("s" in it for _, it in v["v"]):
-                    yield {"terms": terms, "ns": ns[:i] + [[n, {"k": "dense", "v": [it for _, it in v["v"]], "wrap": "list"}]] + ns[i + 1:]}
+                    yield (terms, ns[:i] + [[n, {"k": "dense", "v": [it for _, it in v["v"]], "wrap": "list"}]] + ns[i + 1:])
                 for j, e in enumerate(v["v"]):
                     it = e if v["k"] == "dense" else e[1]
                     if "n" in it and (it.get("f") or it["n"][1] != 1):
                         it2 = {"n": [PRIMES[j % len(PRIMES)], 1]}
                         nv = list(v["v"])
                         nv[j] = it2 if v["k"] == "dense" else [e[0], it2]
-                        yield {"terms": terms, "ns": ns[:i] + [[n, dict(v, v=nv)]] + ns[i + 1:]}
+                        yield (terms, ns[:i] + [[n, dict(v, v=nv)]] + ns[i + 1:])
                     if "s" in it and len(it["s"]) > 1:
                         nv = list(v["v"])
-                        it2 = {"s": it["s"][:1]}
+                        it2 = dict(it, s=it["s"][:1])
                         nv[j] = it2 if v["k"] == "dense" else [e[0], it2]
-                        yield {"terms": terms, "ns": ns[:i] + [[n, dict(v, v=nv)]] + ns[i + 1:]}
+                        yield (terms, ns[:i] + [[n, dict(v, v=nv)]] + ns[i + 1:])
 
     def snippet(self, case):
         if case is None:
             return ""
+        calls = calls_of(case)
         lines = ["import sys, itertools; sys.path.insert(0, %r)" % os.environ.get("COBA_REPO", "/repo"),
                  "from coba.encodings import InteractionsEncoder"]
-        wraps = set(v.get("wrap") for _, v in case["ns"])
+        vals = [v for ns in calls for _, v in ns]
+        wraps = set(v.get("wrap") for v in vals)
         if "lazy" in wraps:
             lines.append("from coba.pipes.rows import LazyDense, LazySparse")
         if "hashable" in wraps:
             lines.append("from coba.primitives import HashableDense, HashableSparse")
+        scs = set(it.get("sc") for one in [{"ns": ns} for ns in calls] for it in all_items(one))
+        if "cat" in scs:
+            lines.append("from coba.primitives import Categorical")
+        if "sub" in scs:
+            lines.append("class S(str): pass")
 
         def sv(v):
             p = repr(build_val_plain(v))
@@ -854,17 +1111,35 @@ class C20(Property):
             if w == "hashable":
                 return ("HashableDense(%s)" if v["k"] == "dense" else "HashableSparse(%s)") % p
             return p
-        lines.append("print(InteractionsEncoder(%r).encode(%s))" % (build_terms(case), ", ".join("%s=%s" % (n, sv(v)) for n, v in case["ns"])))
-        try:
-            o = Oracle(case)
-            d = dedupe(o.terms)
-            exp = {"sparse": o.sparse_dict(d)} if o.sparse else {"dense": o.dense(d)}
-            if o.sparse:
-                lines.append("# expected (names concatenated, products; combinations_with_replacement x outer product): %s" % {k: (int(v) if v.denominator == 1 else float(v)) for k, v in exp["sparse"].items()})
-            else:
-                lines.append("# expected (constant, then per term combinations_with_replacement x outer product): %s" % [(int(v) if v.denominator == 1 else float(v)) for v in exp["dense"]])
-        except Exception:
-            pass
+        lines.append("enc = InteractionsEncoder(%r)" % (build_terms(case),))
+        seen = {}
+        for i, ns in enumerate(calls):
+            args = []
+            for n, v in ns:
+                slot = v.get("obj")
+                plain = (v["k"] == "dense" and v.get("wrap", "list") == "list") or (v["k"] == "sparse" and v.get("wrap", "dict") == "dict")
+                if slot is None or not plain:
+                    args.append("%s=%s" % (n, sv(v)))
+                    continue
+                name = "obj%d" % slot
+                if seen.get(slot) == v["k"]:
+                    lines.append("%s[:] = %s  # the same list object, changed in place" % (name, sv(v)) if v["k"] == "dense"
+                                 else "%s.clear(); %s.update(%s)  # the same dict object, changed in place" % (name, name, sv(v)))
+                else:
+                    lines.append("%s = %s" % (name, sv(v)))
+                    seen[slot] = v["k"]
+                args.append("%s=%s" % (n, name))
+            lines.append("try: print(enc.encode(%s))" % ", ".join(args))
+            lines.append("except Exception as e: print('raised', repr(e))")
+            try:
+                o = Oracle(single(case, i))
+                d = dedupe(o.terms)
+                if o.sparse:
+                    lines.append("# expected mapping (names concatenated, values multiplied): %s" % {k: (int(v) if v.denominator == 1 else float(v)) for k, v in o.sparse_dict(d).items()})
+                else:
+                    lines.append("# expected vector (constant, then per term combinations_with_replacement x outer product): %s" % [(int(v) if v.denominator == 1 else float(v)) for v in o.dense(d)])
+            except Exception:
+                pass
         return "\n".join(lines) + "\n"
 
 
